@@ -425,8 +425,15 @@ pub fn book_to_mon(b: &RefBook) -> serde_json::Value {
 pub fn with_ref(p: &Position, r: Option<&RefPos>) -> Position {
     let mut q = p.clone();
     if let Some(r) = r {
-        q.margin = cosmwasm_std::Uint128::new(r.margin.max(0) as u128);
-        q.notional = cosmwasm_std::Uint128::new(r.notional.max(0) as u128);
+        // within the book's own tolerance the stored figure *is* the reference figure (a unit of rounding must not be
+        // amplified by a division by a dust notional); beyond it the reference figure is used and the record
+        // comparison reports the difference
+        if (p.margin.u128() as i128 - r.margin as i128).abs() > 2 {
+            q.margin = cosmwasm_std::Uint128::new(r.margin.max(0) as u128);
+        }
+        if (p.notional.u128() as i128 - r.notional as i128).abs() > 2 {
+            q.notional = cosmwasm_std::Uint128::new(r.notional.max(0) as u128);
+        }
         q.last_updated_premium_fraction = if r.cp < 0 {
             margined_common::integer::Integer::new_negative(r.cp.unsigned_abs() as u128)
         } else {
